@@ -124,7 +124,7 @@ def expected_class_count(resolved):
 
     seen = set()
     for obj in gen_docs.object_schemas(resolved):
-        body = {k: v for k, v in obj.items() if k not in ("definitions",)}
+        body = {k: v for k, v in obj.items() if k not in ("definitions", "title")}
         seen.add((expected_class_name(obj.get("title", "")), canon(body)))
     return len(seen)
 
